@@ -384,7 +384,12 @@ Definition add (c : cfg) (fs : fsys) (h : handle) (t : traj) : fsys * handle * o
                    counted, the file is created and partly written, then the check raises *)
                 let h0 := match h_indexable h with Some _ => h | None => set_indexable h (Some (has_id t)) end in
                 if full then (fs, h0, OErr EFull)
-                else let '(fs1, h1) := insert fs h0 t false in (fs1, h1, OErr ERequired)
+                else match h_src h with
+                     | SrcMem _ =>
+                         (* an in-memory store writes nothing, so nothing ever checks: accepted *)
+                         let '(fs1, h1) := insert fs h0 t true in (fs1, h1, OIdx (h_next h))
+                     | _ => let '(fs1, h1) := insert fs h0 t false in (fs1, h1, OErr ERequired)
+                     end
           | TOk =>
               if full then
                 (fs, (if fix_F6 c then h
